@@ -35,9 +35,10 @@ LineOK(e) ==
             /\ p.nil = 0 => g.direct = 1
 
 CONSTANT Stride
-TInit == l \in 1..Stride
+(* line-less start indices: initial states are evaluated on TLC's small main-thread stack *)
+TInit == l \in (1 - Stride)..0
 TNext == l <= Len(Trace) /\ l' = l + Stride /\ UNCHANGED c
 TSpec == TInit /\ c = [f |-> "none"] /\ [][TNext]_<<l, c>>
 
-LinesOK == l <= Len(Trace) => LineOK(Ev)
+LinesOK == (l >= 1 /\ l <= Len(Trace)) => LineOK(Ev)
 =============================================================================
